@@ -98,7 +98,8 @@ def run(P, rep, tier):
     rep.explanation = ('Code-shape conditions that make failure handling and cleanup of the driver work on every path of main.c: '
                        'whole-program who-may-call facts (file creation, temp creation, fork, hard exits) over the resolved call graph of all units, '
                        'and path facts from abstract interpretation of run_subprocess / create_tmpfile / cleanup / cc1 / main with a process model '
-                       '(fork returns 0, >0 or -1; exec succeeds or fails; wait delivers each class of wait status as the kernel encodes it; '
+                       '(fork returns 0, >0 or -1; posix_spawn* returns 0 or a positive errno value and has no child side in this program; system returns -1 or a wait status; exec succeeds or fails; '
+                       'wait/waitpid/wait3/wait4/waitid deliver each class of wait status as the kernel encodes it; '
                        'exit-family calls end the path). Decides: temp files are registered for exit-time cleanup, cleanup is installed before any temp exists '
                        'and unlinks all of them, the parent never terminates past its atexit handlers and the child never runs them, every non-zero wait status '
                        '(exit code or signal) stops the driver with a non-zero status, the user-visible output is opened only after every phase that can '
@@ -109,6 +110,8 @@ def run(P, rep, tier):
                        'temp-name uniqueness is decided only as "names come from mkstemp".')
     rep.assumptions += ['wait status encoding of Linux/glibc (low 7 bits signal, bit 7 core, bits 8-15 exit code)',
                         'wait() returns -1 without writing the status when the caller has no child',
+                        'posix_spawn/posix_spawnp report every failure to start the program (including, with glibc >= 2.24, a failed exec) as a positive errno return value, never as -1 and not through errno; '
+                        'the alternative POSIX allows (child exits with 127) is covered by the wait statuses',
                         'loops over argument lists are analysed for 0..k generic iterations (k=1, main: 2)',
                         'assert() failures are internal errors (R13.4) and are not counted as driver terminations',
                         'a function whose address is taken counts as called from the function that takes it',
@@ -390,15 +393,22 @@ def _nonzero_exit(out):
 # ============================================================ R14.3 / R14.4 ===
 def r143_r144(P, u, rep, cg, reach_main, facts):
     rep.rule('R14.3', 'outside the forked child the process ends only through exit()/return from main (atexit handlers run); inside the child only through exec* or _exit (the child never runs the parent\'s handlers, never continues the driver)', floor=3)
-    rep.rule('R14.4', 'on every path from fork to the return the wait status is read, every non-zero status (exit code or signal) ends the driver with a non-zero status, success continues, and a failed fork is fatal', floor=4)
+    rep.rule('R14.4', 'on every path from process creation (fork, posix_spawn*, system) to the return the wait status is read, every non-zero status (exit code or signal) ends the driver with a non-zero status, '
+                      'success continues, and a failed process creation - as that API reports it: fork/system -1, posix_spawn* a positive errno value - is fatal', floor=4)
     fork_fns = {}
-    for name in L.FORK_FNS:
+    kinds = {}          # launcher function -> set of process-creation families it calls (fork / spawn / system)
+    for name in L.LAUNCH_FNS:
         for (cu, caller, call) in cg.sites.get(name, ()):
             if caller in reach_main:
                 fork_fns.setdefault(caller, cu)
+                kinds.setdefault(caller, set()).add(L.LAUNCH_KIND[name])
+    for name in L.LAUNCH_UNMODELLED:
+        for (cu, caller, call) in cg.sites.get(name, ()):
+            if caller in reach_main:
+                rep.undecided('R14.3', '%s:%s:%s' % (cu.name, caller, name), 'process creation through %s() is not modelled' % name, where=_where(call, cu.name))
     facts['fork_fns'] = set(fork_fns)
     if not fork_fns:
-        rep.undecided('R14.3', '%s:fork' % U, 'no reachable call of fork(): the subprocess anchor vanished')
+        rep.undecided('R14.3', '%s:fork' % U, 'no reachable call of fork() / posix_spawn() / system(): the subprocess anchor vanished')
         return
     for name in L.WAIT_UNMODELLED:
         for (cu, caller, call) in cg.sites.get(name, ()):
@@ -407,8 +417,9 @@ def r143_r144(P, u, rep, cg, reach_main, facts):
     entered_roles = {}   # function -> set of roles in which it was entered while exploring fork functions
     explored_sites = {}  # (unit, line of hard exit call) -> set of roles
     for fn, cu in sorted(fork_fns.items()):
-        rep.ob('R14.3', '%s:%s:fork-in-driver' % (cu.name, fn), cu.name == U,
-               'fork() is called outside main.c (%s)' % cg.witness(fn), where=_where(cu.fn(fn), cu.name))
+        for kind in sorted(kinds[fn]):
+            rep.ob('R14.3', '%s:%s:%s-in-driver' % (cu.name, fn, kind), cu.name == U,
+                   'a process is created (%s) outside main.c (%s)' % (kind, cg.witness(fn)), where=_where(cu.fn(fn), cu.name))
         try:
             it = L.make_interp(P, cu, loop_limit=1)
             paths = it.explore(fn, lambda ctx: [])
@@ -416,7 +427,18 @@ def r143_r144(P, u, rep, cg, reach_main, facts):
             rep.undecided('R14.3', '%s:%s:interpretation' % (cu.name, fn), str(e))
             continue
         w = _where(cu.fn(fn), cu.name)
-        seen = {'child': 0, 'parent': 0, 'fork-failed': 0}
+        # outcomes every launcher must be seen in: fork has a child side in this program and fails with -1;
+        # posix_spawn* has no child side here and fails with an errno value; system() fails with -1
+        seen = {'parent': 0}
+        if 'fork' in kinds[fn]:
+            seen.update({'child': 0, 'fork-failed': 0})
+        if 'spawn' in kinds[fn]:
+            seen['spawn-failed'] = 0
+        if 'system' in kinds[fn]:
+            seen['fork-failed'] = 0
+        if 'fork' not in kinds[fn]:
+            # posix_spawn* / system create the child inside libc: it execs or _exits there and never runs code (or handlers) of this program
+            rep.ob('R14.3', '%s:%s:child-side-stays-in-libc' % (cu.name, fn), True, '', where=w)
         for ctx, out in paths:
             st = L.proc_state(ctx)
             role = st['role']
@@ -426,7 +448,7 @@ def r143_r144(P, u, rep, cg, reach_main, facts):
                 explored_sites.setdefault((cu.name, out[3]), set()).add(role)
             if role == 'no-fork':
                 continue
-            seen[role] += 1
+            seen[role] = seen.get(role, 0) + 1
             trail = {'path': _fmt_path(ctx)}
             # ---- R14.3
             if role == 'child':
@@ -496,9 +518,24 @@ def r143_r144(P, u, rep, cg, reach_main, facts):
                 else:
                     rep.ob('R14.4', '%s:%s:fork-failure-is-fatal' % (cu.name, fn), _nonzero_exit(out),
                            'a failed fork() ends the driver with a status that is not certainly non-zero (%s%r)' % (out[1], tuple(out[2][:1])), where=w, facts=trail)
+            elif role == 'spawn-failed':
+                api = st.get('launch_api', 'posix_spawn')
+                err = st.get('launch_error', 'an errno value')
+                if L.uninit_read(ctx, out):
+                    rep.ob('R14.4', '%s:%s:spawn-failure-reads-uninitialised-status' % (cu.name, fn), False,
+                           'when %s() fails it returns a positive errno value (%s) and there is no child: wait() returns -1 without writing the status, and the following test reads the uninitialised variable'
+                           % (api, err), where=w, facts=trail)
+                elif out[0] == 'ret':
+                    rep.ob('R14.4', '%s:%s:spawn-failure-ignored' % (cu.name, fn), False,
+                           'when %s() cannot start the program it returns a positive errno value (%s; never -1, and errno is not set) and no child exists; on this path the function does not recognise that result, '
+                           'wait() finds no child and leaves the status untouched, and the function returns as if the subprocess had run successfully: the driver carries on with the next stage and can exit 0 '
+                           'without the object/executable having been produced' % (api, err), where=w, facts=trail)
+                else:
+                    rep.ob('R14.4', '%s:%s:spawn-failure-is-fatal' % (cu.name, fn), _nonzero_exit(out),
+                           'a failed %s() ends the driver with a status that is not certainly non-zero (%s%r)' % (api, out[1], tuple(out[2][:1])), where=w, facts=trail)
         for role, n in seen.items():
             if n == 0:
-                rep.undecided('R14.3', '%s:%s:no-%s-path' % (cu.name, fn, role), 'no explored path with fork() outcome `%s`' % role)
+                rep.undecided('R14.3', '%s:%s:no-%s-path' % (cu.name, fn, role), 'no explored path with process-creation outcome `%s`' % role)
     # ---- whole program: hard exits reachable from main that the exploration did not see on child-only paths
     for name in L.HARD_EXIT:
         for (cu, caller, call) in cg.sites.get(name, ()):
